@@ -119,6 +119,10 @@ DevEnabled(d, feat) ==
     \* a backslash-newline glued to the word before it and the word after it (`a\<newline>b` is the one
     \* word `ab`): the continuation line is indented, which separates the halves
     [] d = "Dev_GluedContinuationSplit"   -> feat.glued_continuation
+    \* xonsh's own parser reads a function-macro call whose raw body spans physical lines differently
+    \* depending on the indentation width of the enclosing block (2 spaces / a tab: a command; 4 spaces: a
+    \* macro call): re-indenting the block changes what xonsh makes of the statement
+    [] d = "Dev_MultilineMacroReindented" -> feat.multiline_macro_in_block
     [] OTHER -> FALSE
 
 Format(feat, accepted) ==
